@@ -186,8 +186,10 @@ fn gen_request(rng: &mut StdRng, id: u64, cfg: &WorldCfg) -> (ReqSpec, usize, bo
     let chunk = if body_len > 20_000 && chunk < 100 { 4096 } else { chunk };
     let host = host_of(cfg, si);
     let scheme = if cfg.tls { "https" } else { "http" };
-    let spelling = match rng.gen_range(0..4) {
+    let spelling = match rng.gen_range(0..6) {
         0 => format!("{scheme}://{}", host.to_ascii_uppercase().replace(".TEST", ".test").replace(".COM", ".com")),
+        // every server of a plain world is also reachable under one shared host name, told apart by the port only
+        1 | 2 if !cfg.tls => format!("{scheme}://shared.test:{}", 8000 + si),
         _ => format!("{scheme}://{host}"),
     };
     let mut headers: Vec<(String, String)> = (0..rng.gen_range(0..8)).map(|j| (format!("x-c{j}"), format!("val-{id}-{j}-{}", "z".repeat(rng.gen_range(0..40))))).collect();
@@ -212,8 +214,9 @@ fn gen_request(rng: &mut StdRng, id: u64, cfg: &WorldCfg) -> (ReqSpec, usize, bo
         headers,
         resp_chunk: [0usize, 1, 64, 5000][rng.gen_range(0..4)],
         // hyper itself sends no chunked body for GET / HEAD / CONNECT (a body of unknown length is dropped there)
-        unsized_body: body_len > 0 && chunkable && rng.gen_bool(0.4),
-        http10: !h2 && !upgrade && rng.gen_bool(0.15),
+        unsized_body: body_len > 0 && chunkable && rng.gen_bool(0.4) && std::env::var("HDV_NO_UNSIZED").is_err(),
+        http10: !h2 && !upgrade && rng.gen_bool(0.15) && std::env::var("HDV_NO_HTTP10").is_err(),
+        root_path: if upgrade { 0 } else { [0u8, 0, 0, 0, 0, 0, 0, 0, 1, 2][rng.gen_range(0..10)] },
     };
     (spec, si, upgrade)
 }
@@ -241,6 +244,11 @@ async fn do_request(client: ClientSvc, spec: ReqSpec, server: usize, upgrade: bo
         let out = pattern(spec.id, 200);
         if let Err(e) = io.write_all(&out).await {
             return Outcome::Failed(format!("upgraded write: {e}"));
+        }
+        // over TLS the record may still sit in the session's buffer if the transport pushed back: flush, or the peer
+        // never sees it (a harness stall, not the library's)
+        if let Err(e) = io.flush().await {
+            return Outcome::Failed(format!("upgraded flush: {e}"));
         }
         let mut back = vec![0u8; 200];
         if let Err(e) = io.read_exact(&mut back).await {
@@ -295,6 +303,9 @@ pub async fn run_world_async(cfg: WorldCfg) -> WorldResult {
         };
         let h = spawn_upgrade_capable_server(i, *proto, *net, tls, log.clone(), gates.clone()).await;
         routes.add(&host_of(&cfg, i), h.target.clone());
+        if !cfg.tls {
+            routes.add(&format!("shared.test:{}", 8000 + i), h.target.clone());
+        }
         servers.push(h);
     }
     let pool = if cfg.pool {
@@ -397,6 +408,8 @@ pub fn judge(cfg: &WorldCfg, res: &WorldResult, rep: &mut Report, args: &Args) {
             p.count("worlds_tls", 1);
             p.count("requests_completed_ok_over_tls", completed as u64);
         }
+        p.count("requests_root_path_with_query", res.outcomes.iter().filter(|(s, o)| s.root_path != 0 && matches!(o, Outcome::Ok)).count() as u64);
+        p.count("requests_to_shared_host_by_port", res.outcomes.iter().filter(|(s, o)| s.origin.contains("shared.test") && matches!(o, Outcome::Ok)).count() as u64);
         p.count("requests_unsized_body", res.outcomes.iter().filter(|(s, o)| s.unsized_body && matches!(o, Outcome::Ok)).count() as u64);
         p.count("requests_versioned_http10", res.outcomes.iter().filter(|(s, o)| s.http10 && matches!(o, Outcome::Ok)).count() as u64);
         for (_, n) in cfg.servers.iter() {
